@@ -10,7 +10,8 @@
 EXTENDS Rat, TLC, FiniteSets, Json, Randomization
 CONSTANTS N,           \* number of programs affecting the parameter
           CovGrid, OutGrid, BaseGrid, Patterns,
-          Sample       \* <<0, 0>>: every outcome vector and every coverage vector of the grids; <<a, b>>: a random outcome vectors and b random coverage vectors each (4 and 5 programs)
+          Sample,      \* <<0, 0>>: every outcome vector and every coverage vector of the grids; otherwise the vectors below (4 and 5 programs),
+          SampOut, SampCov   \* drawn by the harness with a seeded generator
 Progs == 1..N
 Combos == SUBSET Progs
 VARIABLES cov, out, base, mode, pat, obs
@@ -71,7 +72,7 @@ Modes == IF N = 1 THEN {"additive"} ELSE {"additive", "nested", "random"}
 \* Init chooses everything but the coverage vector; Pick chooses the coverages and emits the case (two levels so that
 \* TLC's workers share the enumeration: initial states are generated by a single thread)
 Unset == <<>>
-Init == /\ cov = Unset /\ out \in (IF Sample[1] = 0 THEN [Progs -> OutGrid] ELSE RandomSubset(Sample[1], [Progs -> OutGrid])) /\ base \in BaseGrid
+Init == /\ cov = Unset /\ out \in (IF Sample[1] = 0 THEN [Progs -> OutGrid] ELSE SampOut) /\ base \in BaseGrid
         /\ mode \in Modes /\ pat \in (IF N = 1 THEN {"none"} ELSE Patterns) /\ obs = ""
 Case(c) == ToJson([n |-> N, cov |-> c, out |-> out, base |-> base, mode |-> mode, pat |-> pat,
                    explicit |-> {<<SetToSortSeq(S, LAMBDA a, b : a < b), Explicit(S)>> : S \in {S \in Combos : HasExplicit(S)}},
@@ -81,7 +82,7 @@ Case(c) == ToJson([n |-> N, cov |-> c, out |-> out, base |-> base, mode |-> mode
                    mono |-> (IF SameWay(1) /\ InclMonotone(1) THEN 1 ELSE IF SameWay(-1) /\ InclMonotone(-1) THEN -1 ELSE 0),
                    expect |-> OutcomeAt(c)])
 Pick == /\ cov = Unset
-        /\ \E c \in (IF Sample[1] = 0 THEN [Progs -> CovGrid] ELSE RandomSubset(Sample[2], [Progs -> CovGrid])) : cov' = c /\ obs' = Case(c)
+        /\ \E c \in (IF Sample[1] = 0 THEN [Progs -> CovGrid] ELSE SampCov) : cov' = c /\ obs' = Case(c)
         /\ UNCHANGED <<out, base, mode, pat>>
 Spec == Init /\ [][Pick]_vars
 
